@@ -69,6 +69,7 @@ def real_kv(t, sc, p, shift=0.0, scale=1.0):
     return bspline.KnotVector(shift + scale * (np.array(t, dtype=float) / sc), p)
 
 
+NONDYADIC = [(0.1, 0.2), (1.0 / 3, 2.0 / 3), (0.3, 1.3), (0.9, 1.0), (-0.7, 0.3), (2.5, 7.1)]
 AFFINE = [(0.0, 1.0), (-1.5, 0.5), (3.0, 2.0)]     # dyadic: exact in binary floating point
 
 
@@ -136,6 +137,23 @@ def replay_queries(ctx, tally, r):
         if g.shape != (nd,) or np.abs(g - gq).max(initial=0.0) > TOL * max(1.0, abs(r['t'][-1] / sc)) or \
                 g.min() < kv.kv[0] or g.max() > kv.kv[-1]:
             bad('greville', g, gq)
+        # the same knot vector on domains whose end points are NOT binary fractions: the running averages round,
+        # and the abscissae must still lie inside [a, b] (and stay within rounding of the exact averages)
+        t0, t1 = r['t'][0], r['t'][-1]
+        if t1 > t0:
+            for a, b in NONDYADIC:
+                tt = np.array([a + (b - a) * ((x - t0) / (t1 - t0)) for x in r['t']], dtype=float)
+                tt[tt >= b] = b         # the clamped end knots are exactly b
+                tt = np.maximum.accumulate(tt)
+                kva = bspline.KnotVector(tt, p)
+                ga = np.asarray(kva.greville(), dtype=float)
+                want = [a + (b - a) * ((q * sc - t0) / (t1 - t0)) for q in gq]
+                if ga.shape != (nd,) or ga.min() < kva.kv[0] or ga.max() > kva.kv[-1] or \
+                        np.abs(ga - want).max(initial=0.0) > 1e-12 * max(1.0, abs(a), abs(b)):
+                    tally.add('KnotVector.greville outside-domain-or-inexact non-dyadic-domain',
+                              {'case': case, 'domain': [a, b], 'observed': ga.tolist(), 'expected': want,
+                               'over': float(ga.max() - kva.kv[-1]), 'under': float(kva.kv[0] - ga.min())})
+                    break
         if abs(kv.meshsize_avg() - float(frac(r['meshsize_avg']))) > TOL:
             bad('meshsize_avg', kv.meshsize_avg(), r['meshsize_avg'])
         # copies are equal, equality is reflexive
@@ -306,6 +324,23 @@ def check_make_knots(tally, r, a, b, ivname, exact_samples):
             if abs(Fraction(float(mesh[smp['i']])) - xi) > Fraction(tol) or abs(float(x) - float(xi)) > 1e-9 * max(1, abs(float(x))):
                 tally.add('make_knots breakpoint-sample', {'case': case, 'i': smp['i'], 'observed': float(mesh[smp['i']]),
                                                                     'expected': float(xi)}, key, cls)
+    # Greville abscissae of the generated knot vector: one per function, inside [a, b], non-decreasing, within rounding
+    # of the exact knot averages (first, last and a middle one, in exact arithmetic on the floats actually stored)
+    try:
+        g = np.asarray(kv.greville(), dtype=float)
+        nd = len(t) - p - 1
+        okg = g.shape == (nd,) and g.min() >= t[0] and g.max() <= t[-1] and bool(np.all(np.diff(g) >= -4 * max(_ulp(a), _ulp(b))))
+        if okg and p >= 1:
+            for j in sorted({0, nd // 2, nd - 1}):
+                ex = sum(Fraction(float(x)) for x in t[j + 1:j + p + 1]) / p
+                if abs(Fraction(float(g[j])) - ex) > Fraction(8.0 * (p + 1) * max(_ulp(a), _ulp(b))):
+                    okg = False
+        if not okg:
+            tally.add('greville-on-make_knots outside-domain-or-inexact',
+                      {'case': case, 'over': float(g.max() - t[-1]) if g.size else None,
+                       'under': float(t[0] - g.min()) if g.size else None}, key, cls)
+    except Exception as ex:
+        tally.add('exception %s greville-on-make_knots' % type(ex).__name__, {'case': case, 'error': repr(ex)}, key, cls)
     # span lookup at every breakpoint, its two neighbouring floats and the midpoints
     exp = r['span0'] + r['stride'] * np.arange(n)
     try:
